@@ -1,5 +1,5 @@
 (* Extraction of the C01 models; run by the check driver from the build directory. *)
 Require Extraction.
 Require Import ExtrOcamlBasic.
-From Verif Require Import Lib.Base Lib.Dyadic Model.Ast Model.Instr Model.Compiler Model.Encode.
-Extraction "model.ml" of_bits canon comp_program encode_program.
+From Verif Require Import Lib.Base Lib.Dyadic Model.Ast Model.Instr Model.Compiler Model.Encode Model.CancelToy Model.ExecToy.
+Extraction "model.ml" of_bits canon comp_program encode_program toy_ast_run toy_vm_run toy_fragment_ok.
